@@ -6,7 +6,8 @@ From PJ Require Import Base.Json Base.Res Model.Msg Generated.Consts.
 Import ListNotations.
 Open Scope string_scope. Open Scope list_scope.
 
-Inductive pkind := PResult (v : json) | PError (e : rpc_error) | PCallback (tag : json).
+Inductive pkind := PResult (v : json) | PError (e : rpc_error) | PCallback (tag : json)
+                 | PRaise.    (* a callback that raises (or a patch that cannot be served): the exception reaches the caller *)
 Record patch := { p_kind : pkind; p_once : bool; p_id : option idv }.
 
 Definition mtable := list (string * list patch).
@@ -15,7 +16,7 @@ Definition m_init : mstate := {| matches := []; calls := [] |}.
 
 Inductive mop :=
 | MAdd (ep m : string) (p : patch)
-| MReplace (ep m : string) (idx : nat) (p : patch)
+| MReplace (ep m : string) (idx : Z) (p : patch)     (* a Python list index: negative ones count from the end *)
 | MRemove (ep : string) (m : option string)
 | MReset
 | MCall (ep : string) (r : request)                 (* a single request document reaches the patched transport *)
@@ -27,11 +28,16 @@ Inductive mout :=
 | MReply (doc : json)                    (* the text the patched transport returned, as a JSON value *)
 | MRefused                               (* ConnectionRefusedError: endpoint not patched, passthrough off *)
 | MPassthrough                           (* endpoint not patched, passthrough on: the original transport was called *)
-| MIdentity.                             (* duplicate reply ids in a batch answer (BatchResponse.append) *)
+| MIdentity                              (* duplicate reply ids in a batch answer (BatchResponse.append) *)
+| MRaised.                               (* serving the patch raised (PRaise): the exception propagates out of the transport call *)
 
 (* the value a callback patch computes: the harness's callbacks return [tag, arguments] *)
 Definition callback_value (tag : json) (p : params) : json := JArr [tag; params_json p].
 
+(* list[idx] = x with Python's index rule *)
+Definition norm_index (idx : Z) (n : nat) : option nat :=
+  if (0 <=? idx)%Z then Some (Z.to_nat idx)
+  else if (0 <=? Z.of_nat n + idx)%Z then Some (Z.to_nat (Z.of_nat n + idx)) else None.
 Fixpoint replace_nth {A} (n : nat) (x : A) (l : list A) : option (list A) :=
   match l, n with
   | [], _ => None
@@ -54,7 +60,17 @@ Definition record_call (cs : list (string * list (string * list params))) (ep m 
   let l := match get m t with Some l => l | None => [] end in
   set ep (set m (l ++ [p]) t) cs.
 
-(* _match_request on a patched endpoint *)
+(* what stands in for the reply of a patch whose serving raises; [step] never shows it (MRaised) *)
+Definition raise_marker : rpc_error := {| e_code := 0; e_msg := "<serving the patch raised>"; e_data := None; e_class := "" |}.
+Definition raises (s : mstate) (ep : string) (r : request) : bool :=
+  match get ep (matches s) with
+  | Some t => match get (r_method r) t with
+              | Some (p :: _) => match p_kind p with PRaise => true | _ => false end
+              | _ => false end
+  | None => false end.
+
+(* _match_request on a patched endpoint: the patch is taken from the front and (unless `once`) put at the back BEFORE it is
+   served, so a patch whose serving raises has been used all the same *)
 Definition match_request (s : mstate) (ep : string) (r : request) : response * mstate :=
   match get ep (matches s) with
   | None => (RError (r_id r) {| e_code := MethodNotFoundError_code; e_msg := MethodNotFoundError_message;
@@ -73,6 +89,7 @@ Definition match_request (s : mstate) (ep : string) (r : request) : response * m
            | PCallback tag => RResult (r_id r) (callback_value tag (r_params r))
            | PResult v => RResult (match r_id r with Some i => Some i | None => p_id p end) v
            | PError e => RError (match r_id r with Some i => Some i | None => p_id p end) e
+           | PRaise => RError (r_id r) raise_marker
            end, s')
       end
   end.
@@ -83,10 +100,22 @@ Fixpoint match_all (s : mstate) (ep : string) (rs : list request) (acc : batch r
   match rs with
   | [] => (Some acc, s)
   | r :: q => let '(x, s1) := match_request s ep r in
+              if raises s ep r then (None, s1) else
               match batch_append resp_id acc x with
               | Ok acc' => match_all s1 ep q acc'
               | Raise _ => (None, s1)
               end
+  end.
+
+(* did the batch loop stop because serving a patch raised (and not because of a duplicate reply id)? *)
+Fixpoint batch_raises (s : mstate) (ep : string) (rs : list request) (acc : batch response) : bool :=
+  match rs with
+  | [] => false
+  | r :: q => if raises s ep r then true else
+              let '(x, s1) := match_request s ep r in
+              match batch_append resp_id acc x with
+              | Ok acc' => batch_raises s1 ep q acc'
+              | Raise _ => false end
   end.
 
 Definition step (passthrough : bool) (s : mstate) (o : mop) : mout * mstate :=
@@ -100,7 +129,7 @@ Definition step (passthrough : bool) (s : mstate) (o : mop) : mout * mstate :=
       | None => (MIndexError, s)
       | Some t => match get m t with
                   | None => (MIndexError, s)
-                  | Some l => match replace_nth idx p l with
+                  | Some l => match (match norm_index idx (List.length l) with Some k => replace_nth k p l | None => None end) with
                               | Some l' => (MDone, {| matches := set ep (set m l' t) (matches s); calls := calls s |})
                               | None => (MIndexError, s) end
                   end
@@ -124,7 +153,7 @@ Definition step (passthrough : bool) (s : mstate) (o : mop) : mout * mstate :=
   | MCall ep r =>
       match get ep (matches s) with
       | None => (if passthrough then MPassthrough else MRefused, s)
-      | Some _ => let '(x, s') := match_request s ep r in (MReply (resp_to_json x), s')
+      | Some _ => let '(x, s') := match_request s ep r in (if raises s ep r then MRaised else MReply (resp_to_json x), s')
       end
   | MBatch ep rs =>
       match get ep (matches s) with
@@ -133,7 +162,7 @@ Definition step (passthrough : bool) (s : mstate) (o : mop) : mout * mstate :=
           let '(b, s') := match_all s ep rs batch_empty in
           match b with
           | Some b => (MReply (JArr (map resp_to_json (b_items b))), s')
-          | None => (MIdentity, s')
+          | None => (if batch_raises s ep rs batch_empty then MRaised else MIdentity, s')
           end
       end
   end.
